@@ -433,9 +433,7 @@ theorem containsW_noPanic (w : Wrapper) (e : GoVal) (hw : WrapperOK w) : (contai
     cases v <;> simp_all [rkind, containsW, mapView]
     split
     · rfl
-    · split
-      · exact bind_noPanic _ _ (mapIndex_noPanic _ _) (fun _ _ => rfl)
-      · rfl
+    · split <;> rfl
   | string s =>
     cases e <;> simp [containsW, sprintNeedle]
     rename_i b; cases b <;> simp
